@@ -195,6 +195,7 @@ class RequestHandler(BaseProtocol, Generic[_Request]):
         "_close",
         "_force_close",
         "_current_request",
+        "_parse_failed",
         "_timeout_ceil_threshold",
         "_request_in_progress",
         "_logging_enabled",
@@ -299,6 +300,9 @@ class RequestHandler(BaseProtocol, Generic[_Request]):
 
         self._close = False
         self._force_close = False
+        # Set once the parser rejected the stream: the queued 400 is the last
+        # thing this connection answers, later input is dropped.
+        self._parse_failed = False
         self._request_in_progress = False
         self._cache: dict[str, Any] = {}
 
@@ -463,7 +467,7 @@ class RequestHandler(BaseProtocol, Generic[_Request]):
         pass
 
     def data_received(self, data: bytes) -> None:
-        if self._force_close or self._close:
+        if self._force_close or self._close or self._parse_failed:
             return
         # parse http messages
         messages: Sequence[_MsgType]
@@ -477,6 +481,10 @@ class RequestHandler(BaseProtocol, Generic[_Request]):
                 ]
                 upgraded = False
                 tail = b""
+                # The parser keeps the offending bytes; feeding it again (more
+                # input, or the empty feed of resume_reading()) would queue one
+                # more error marker per call, without bound.
+                self._parse_failed = True
 
             for msg, payload in messages:
                 self._request_count += 1
